@@ -15,7 +15,7 @@ TAG_PROPERTY = {
     "mon.balanced": "C03", "mon.exited-all": "C03", "badThis": "C03", "badOrigin": "C03",
     "mon.idle.req": "C02", "mon.guards-first": "C04", "mon.veto.act": "C04", "mon.veto.res": "C04", "mon.veto.life": "C04",
     "ev.guard": "C04", "ev.guard.pending": "C04", "q": "C04", "req": "C04", "rem": "C04", "oreq": "C04",
-    "ev.traverse": "C05", "mon.reach": "C05", "mon.consume": "C05",
+    "ev.traverse": "C05", "mon.reach": "C05", "mon.consume": "C05", "mon.inj.order": "C05", "mon.inj.order.D13": "C05",
     "ev.plan": "C06", "plans": "C06", "pex": "C06", "succ": "C06", "fail": "C06", "tasks": "C06", "hst": "C06", "sst": "C06",
     "plog": "C07", "mon.plan.iter": "C07", "mon.plan.chain": "C07", "mon.plan.disjoint": "C07", "mon.plan.count": "C07", "mon.plan.free": "C07",
     "prev": "C09", "tt": "C09", "last": "C09",
